@@ -1,7 +1,7 @@
 from . import cli, streams_tables, streams_par, streams_gathermeshb
 
 ID = 'C07'
-PROPS_MODULE = ['Refine.Props.C07', 'Refine.Props.C07Gather']
+PROPS_MODULE = ['Refine.Props.C07', 'Refine.Props.C07Gather', 'Refine.Props.C07GatherMeshb']
 STREAMS = [streams_tables.PART, streams_par.GATHER_NODE, streams_par.GATHER_CELL, streams_par.GATHER_FILE,
            streams_gathermeshb.GATHERMESHB,
            cli.NPINDEP, cli.CONVERT_MPI, cli.DISTANCE_MPI, cli.INTERP_MPI]
